@@ -30,11 +30,12 @@ from harness import common
 from harness.common import Failure, lean_run
 
 PROP_MODULES = ["ArmiVerif.Props.C18"]
-PARTIAL = ("Cartesian maps: the reader is characterised exactly and the writer is proved sound (what it draws reads back to "
-           "the contents) for non-negative indices - for negative indices the statement is false in the code (finding); hex maps: "
-           "proved = the text-cell -> index maps are injective and the reader keeps every token at its computed index; the hex "
-           "WRITE direction (dimension inference from data, corner truncation) is correspondence-only (exhaustive-small + "
-           "generated) and is where the known findings live; blueprints: stacking, link resolution, placement are proved about the "
+PARTIAL = ("Cartesian maps: the reader is characterised exactly, the writer is proved sound at full strength (drawn completely "
+           "or refused) and re-drawing what was read reproduces the text; hex maps: proved = the text-cell -> index maps are "
+           "bijections, the reader keeps every token at its computed index, a drawing is complete unless the inferred outline "
+           "misses a cell or the reader re-infers other dimensions, and third-core maps of any radius are drawn completely when "
+           "the two anchor cells hold data; the full / tips-up WRITE direction for complete maps is correspondence-only "
+           "(exhaustive-small + generated) and the hole cases are the known findings; blueprints: stacking, link resolution, placement are proved about the "
            "model, component construction / materials / thermal expansion of linked dimensions / composition after material "
            "modifications are compared against an independent Python evaluation of the document, not proved")
 ASSUMPTIONS = [
@@ -188,6 +189,8 @@ def classify_incomplete(kind, contents, text):
                           last text line (or, tips-up, counts lines from a dropped top row) and lands elsewhere.
     None = neither explains it (a new violation)."""
     data = {k: v for k, v in contents.items() if v != "-"}
+    if kind == "cart":
+        return None     # fixed in /repo (dd3f3a9): the Cartesian writer refuses index sets not starting at (0, 0)
     try:
         (M, off, ncol, nline), pos = inferred_window(kind, contents)
     except Exception:
@@ -444,7 +447,7 @@ NUCLIDE_FLAGS = """nuclide flags:
 """
 
 
-def gen_doc(rng, geom=None):
+def gen_doc(rng, geom=None, force_pin=None):
     """A random well-formed blueprint document as a plain structure (rendered to YAML by to_yaml)."""
     geom = geom or rng.choice(["hex", "hex", "hex_corners_up", "cartesian"])
     cart = geom == "cartesian"
@@ -491,12 +494,16 @@ def gen_doc(rng, geom=None):
                                              ip="duct.op", op=round(op + 0.2, 2), mult=1.0)
         blocks[name] = comps
         # pin lattice: the block names a grid, pin components name lattice ids and learn their multiplicity from it
-        if geom == "hex" and rng.random() < 0.4:
+        if geom == "hex" and (rng.random() < 0.4 or (force_pin and bi == 0)):
             rings_p = rng.choice([1, 2, 3])
             pcells = hex_cells(rings_p)
             ids = {c: (1 if c == (0, 0) or rng.random() < 0.8 else 2) for c in pcells}
             gname = f"pins{bi}"
-            pingrids[gname] = dict(cells=ids, use_map=rng.random() < 0.6, quoted=rng.random() < 0.85)
+            pingrids[gname] = dict(cells=ids, use_map=rng.random() < 0.6, quoted=rng.random() < 0.5)
+            if force_pin == "int-list" and bi == 0:
+                pingrids[gname].update(use_map=False, quoted=False)   # explicit list with YAML integer specifiers
+            elif force_pin == "map" and bi == 0:
+                pingrids[gname].update(use_map=True)
             blockgrid[name] = gname
             for cn, lids in (("fuel", [1]), ("bond", [1]), ("clad", [1, 2])):
                 comps[cn].pop("mult", None)
@@ -781,11 +788,8 @@ def check_reactor(ctx, doc, r, contents, tag, B):
                 fail_few(ctx, "bp-block-flags", "blocks carry the flags named by their type", c3, observed=str(b.p.flags), expected=str(flags_of_name(bt)))
             comps = {cn: dict(cd) for cn, cd in doc["blocks"][bt].items()}
             by_name = {c.name: c for c in b}
-            int_ids = False
             if bt in doc.get("blockgrid", {}):
                 pg = doc["pingrids"][doc["blockgrid"][bt]]
-                # excluded point: an explicit list whose specifiers are YAML integers (see findings.d/C18.txt)
-                int_ids = (not pg.get("quoted", True)) and (not pg["use_map"] or pin_map_text(pg) is None)
                 pcells = pin_cells(pg)
                 for cn, cd in comps.items():
                     lids = cd.pop("latticeIDs", None)
@@ -799,12 +803,11 @@ def check_reactor(ctx, doc, r, contents, tag, B):
                         except Exception:
                             have = None
                         if have != want:
-                            fail_few(ctx, "bp-pin-lattice-positions" + (":explicit-list-integer-specifiers" if int_ids else ""),
+                            fail_few(ctx, "bp-pin-lattice-positions",
                                      "pin components stand at the lattice positions carrying their ids (text maps and explicit lists alike)",
                                      {**c3, "component": cn, "ids": lids}, observed=have, expected=want)
-                ctx.count("blocks with a pin lattice checked" + (" (integer specifiers in an explicit list)" if int_ids else ""))
-                if int_ids:
-                    continue
+                ctx.count("blocks with a pin lattice checked" + ("" if pg.get("quoted", True) or pg["use_map"] else
+                                                                 " (integer specifiers in an explicit list)"))
             if set(by_name) != set(comps):
                 fail_few(ctx, "bp-component-set", "a block has exactly the specified components", c3, observed=sorted(by_name), expected=sorted(comps))
                 continue
@@ -935,7 +938,18 @@ def run_blueprints(ctx):
     n_ok = n_rej = 0
     with common.scratch_dir("c18-"):
         for t in range(ctx.pick(22, 300)):
-            doc = gen_doc(rng)
+            # every fifth document is a hex core whose first block has a pin lattice given as an explicit list with
+            # integer specifiers, every fifth one as a text map
+            doc = gen_doc(rng, "hex", "int-list") if t % 5 == 1 else gen_doc(rng, "hex", "map") if t % 5 == 3 else gen_doc(rng)
+            if t % 5 in (1, 3):
+                first = list(doc["blocks"])[0]
+                for a in doc["assems"].values():
+                    a["blocks"][0] = first        # make sure the pin-lattice block is used
+                    if doc["blocks"][first]["fuel"]["material"] != "UZr":
+                        mm = a.get("matmods") or {}
+                        for key, colv in mm.items():
+                            for cvals in ([colv] if key != "by component" else list(colv["fuel"].values())):
+                                cvals[0] = ""     # a modification is only legal where the fuel material takes it
             text_map = lattice_text(doc) if doc["use_map"] else None
             if doc["geom"] == "cartesian" and text_map is None:
                 continue
@@ -1120,14 +1134,6 @@ def grid_roundtrip(ctx, kind, text_map, contents, tag):
     ctx.case(("grid-rt", kind, tag, text_map, case["contents"]), nontrivial=True)
     if second != inside:
         mech = classify_incomplete(kind, inside, str(g2["core"].latticeMap)) if wrote_map else None
-        if kind == "cart" and wrote_map:
-            # what the known defect predicts exactly: cells with a negative index are not drawn, the drawing starts
-            # at index 0, and the reader centres what it reads
-            kept = {k: v for k, v in inside.items() if k[0] >= 0 and k[1] >= 0}
-            if kept:
-                nx, ny = max(i for i, _ in kept) + 1, max(j for _, j in kept) + 1
-                predicted = {(i + int(-nx / 2), j + int(-ny / 2)): v for (i, j), v in kept.items()}
-                mech = "centred-cartesian-map" if second == predicted else None
         key = f"grid-save-reload-differs:{kind}:{mech or 'unexplained'}"
         fail_few(ctx, key, "a lattice map read, written and read again gives the same indexed contents", case,
                  observed={"saved": out.getvalue()[:600], "reloaded": show_labels(second)}, expected=show_labels(inside))
